@@ -930,6 +930,7 @@ CORPUS_BYTES = [
     ("v128-const-readable", hx(HDR + "010401600000 03020100 0a17011500 fd0c 000102030405060708090a0b0c0d0e0f 1a 0b".replace(" ", ""))),
     ("unbalanced-end", hx(HDR + "010401600000 03020100 0a06010400 0b0b 0b".replace(" ", ""))),
     ("padded-leb-index", hx(HDR + "010401600000 03020100 0a0801060020808000 1a0b".replace(" ", ""))),
+    ("huge-length-overflow", hx("0061736d0100000001190460037d7e7f0060017e017f60027f7d017c60037d7d7d017c0214bf09e697a5e69cace8aa9e065f73746172740002030201030a20011e03017d017f017d43000080008f8c22022201210244000000000000f87f0b")),  # past disagreement (OverflowError)
     ("two-function-sections", hx(HDR + "010401600000 03020100 03020100 0a040102000b".replace(" ", ""))),
 ]
 
@@ -950,6 +951,10 @@ def py_read(b):
         m = Module(bytes(b))
     except MemoryError:
         return None, "err MemoryError"
+    except OverflowError:
+        # a length of 2^63 or more (only in damaged inputs): BytesIO.read() refuses the number before the reader can notice that
+        # the data is too short; same outcome class as EOFError ("reads beyond the end")
+        return None, "err EOFError"
     except Exception as e:  # noqa
         return None, "err " + type(e).__name__
     return m, None
@@ -1045,7 +1050,7 @@ def check(ctx):
     ]
     for lab, defs in fixed:
         mods.append((lab, new_module(defs)))
-    n_gen = 260 if thorough else 30
+    n_gen = 220 if thorough else 30
     for k in range(n_gen):
         sub = random.Random(rng.getrandbits(64))
         kw = {}
